@@ -324,6 +324,24 @@ def rule_cb_guard(ctx):
 # joinfirst / rettable / spawn-pickle
 # ---------------------------------------------------------------------------
 
+def sketch_roles(pa):
+    """tag -> {'array': name of the per-worker list, 'final': name bound to parallel_merging(array), 'args': parameter}."""
+    roles = {}
+    facs = {"cms": "CountMin", "hh": "HeavyHitters", "hll": "HyperLogLog"}
+    for tag, fac in facs.items():
+        arr = fin = None
+        for n in walk_no_nested(pa.node):
+            if isinstance(n, ast.Call) and isinstance(n.func, ast.Attribute) and n.func.attr == "append" and n.args and isinstance(n.args[0], ast.Call) \
+                    and dotted(n.args[0].func) == fac and isinstance(n.func.value, ast.Name):
+                arr = n.func.value.id
+        for n in walk_no_nested(pa.node):
+            if isinstance(n, ast.Assign) and isinstance(n.targets[0], ast.Name) and isinstance(n.value, ast.Call) and dotted(n.value.func) == "parallel_merging" \
+                    and n.value.args and isinstance(n.value.args[0], ast.Name) and n.value.args[0].id == arr:
+                fin = n.targets[0].id
+        roles[tag] = {"array": arr, "final": fin, "args": "%s_args" % tag}
+    return roles
+
+
 def rule_joinfirst(ctx):
     pa = ctx.model.func(H, "parallel_add")
     wk = ctx.model.func(H, "_worker")
@@ -350,8 +368,13 @@ def rule_joinfirst(ctx):
            "every worker has finished before any of its sketches is merged", okk,
            "" if okk else "no loop joining every worker precedes the first merge")
     # each X_array is merged into X_final and X_array holds the sketches created for the workers
+    roles = sketch_roles(pa)
     for tag, fac in (("cms", "CountMin"), ("hh", "HeavyHitters"), ("hll", "HyperLogLog")):
-        arr, fin = "%s_array" % tag, "%s_final" % tag
+        arr, fin = roles[tag]["array"], roles[tag]["final"]
+        if arr is None or fin is None:
+            ctx.ob("joinfirst", pa, pa.node, "%s sketches" % tag, "per-worker %s sketches are created and merged" % tag, False,
+                   "no list of %s(...) sketches merged by parallel_merging" % fac)
+            continue
         m = [c for _, c in merges if c.args and isinstance(c.args[0], ast.Name) and c.args[0].id == arr]
         asg = [n for n in walk_no_nested(pa.node) if isinstance(n, ast.Assign) and isinstance(n.targets[0], ast.Name) and n.targets[0].id == fin and n.value in m]
         ap = [n for n in walk_no_nested(pa.node) if isinstance(n, ast.Call) and dotted(n.func) == arr + ".append" and n.args and isinstance(n.args[0], ast.Call)
@@ -395,6 +418,7 @@ def rule_rettable(ctx):
         ctx.ob("rettable", pa, pa.node, "return table", "parallel_add returns through an if/elif table", None)
         return
     tags = ["cms", "hh", "hll"]
+    roles = sketch_roles(pa)
     import itertools
     for r in range(1, 4):
         for sub in itertools.combinations(tags, r):
@@ -416,7 +440,7 @@ def rule_rettable(ctx):
                 if node is None and nxt:
                     rets = [x for x in nxt if isinstance(x, ast.Return)]
                     got = rets[0] if rets else None
-            want = ["%s_final" % t for t in sub]
+            want = [roles[t]["final"] for t in sub]
             if und:
                 ctx.ob("rettable", pa, chain, "{%s}" % ",".join(sub), "return table condition readable", None)
                 continue
@@ -434,9 +458,9 @@ def rule_rettable(ctx):
         for s in body:
             if isinstance(s, ast.If) and _truth(s.test, {"%s_args" % t: True, **{"%s_args" % o: False for o in tags if o != t}}) \
                     and not _truth(s.test, {"%s_args" % o: False for o in tags}):
-                if any(isinstance(n, ast.Assign) and isinstance(n.targets[0], ast.Name) and n.targets[0].id == "%s_final" % t for n in s.body):
+                if any(isinstance(n, ast.Assign) and isinstance(n.targets[0], ast.Name) and n.targets[0].id == roles[t]["final"] for n in s.body):
                     ok = True
-        ctx.ob("rettable", pa, pa.node, "%s_final defined when %s_args" % (t, t), "each returned name is defined on the path that returns it", ok)
+        ctx.ob("rettable", pa, pa.node, "%s result defined when %s_args" % (t, t), "each returned name is defined on the path that returns it", ok)
 
 
 GENERATOR_ANNOTATIONS = ("Iterable", "Iterator", "Generator")
